@@ -199,7 +199,7 @@ class StructureMetaType(MetaType):
                     # Moved to a bit field of another type, e.g. uint16 f1 : 8, uint32 f2 : 8;
                     or field_type != bits_type
                     # Still processing a bit field, but it's at a different offset due to alignment or a manual offset
-                    or (bits_type is not None and offset > bits_field_offset + bits_type.size)
+                    or (bits_type is not None and offset is not None and offset > bits_field_offset + bits_type.size)
                 ):
                     # ... if any of this is true, we have to move to the next field
                     bits_type = field_type
